@@ -96,10 +96,39 @@ def directed_family(quick):
                                 r = _snake_recipe(a, ar, al, left_snake, order, shapes, inner, collector)
                                 if r is not None:
                                     out.append(r)
+                                # the same with *equal* obstruction boxes (same name and type on
+                                # one side): bookkeeping by equality instead of position shows here
+                                if nl + nr >= 2 and len(set(shapes)) < len(shapes):
+                                    r = _snake_recipe(a, ar, al, left_snake, order, shapes, inner, collector, equal=True)
+                                    if r is not None:
+                                        out.append(r)
+    out += cup_over_cap_family()
     return out
 
 
-def _snake_recipe(a, ar, al, left_snake, order, shapes, inner=False, collector=False):
+def cup_over_cap_family():
+    """Connected diagrams in which a cup sits directly above a cap at the same offset (an
+    ambiguous pair for the left/right tie-break), alone or next to a snake on a neighbouring wire."""
+    out = []
+    for cl, cr in (("n", "n.r"), ("n.l", "n"), ("n.r", "n.r.r")):
+        for pl, pr in (("n.r", "n"), ("n", "n.l"), ("n.l", "n.l.l")):
+            for s_left in (False, True):
+                for snake in (None, "L", "R"):
+                    top = ("s", cl, cr) if s_left else (cl, cr, "s")
+                    bot = ("s", pl, pr) if s_left else (pl, pr, "s")
+                    o_pair, o_s = (1, 0) if s_left else (0, 2)
+                    layers = [(("box", "A", (), top), 0), (("cup", cl, cr), o_pair)]
+                    so = 0   # offset of the s wire once the pair is gone
+                    if snake == "L":
+                        layers += [(("cap", "s.r", "s"), so + 1), (("cup", "s", "s.r"), so)]
+                    elif snake == "R":
+                        layers += [(("cap", "s", "s.l"), so), (("cup", "s.l", "s"), so + 1)]
+                    layers += [(("cap", pl, pr), 1 if s_left else 0), (("box", "B", bot, ()), 0)]
+                    out.append(("rigid", (), tuple(layers)))
+    return out
+
+
+def _snake_recipe(a, ar, al, left_snake, order, shapes, inner=False, collector=False, equal=False):
     """dom = lw (x) a (x) rw.  A cap is opened next to the wire a, obstruction boxes act between
     the cap and the cup, then the cup closes the snake.  Obstructions act on the outer context
     wire of their side; with inner=True the obstructions of the side where the cap's *free* leg
@@ -117,7 +146,7 @@ def _snake_recipe(a, ar, al, left_snake, order, shapes, inner=False, collector=F
     t = 0
     for side, (i, o) in zip(order, shapes):
         on_free = inner and ((side == "R") == left_snake)
-        name = "o%s%d%d@%d" % (side, i, o, t)
+        name = "o%s%d%d@%d" % (side, i, o, t) if not equal else "o%s%d%d" % (side, i, o)
         t += 1
         if on_free:
             if i != 1 or o != 1:
@@ -247,7 +276,9 @@ def check_normalize(params):
     def bad(kind, msg):
         out.append((_sig(kind, params), "normalize(left=%s) of %s: %s" % (left, d, msg)))
     connected = ref.box_graph_connected(m0)
-    w0 = ref.wiring(m0, transparent)
+    names = [b[0] for b, _ in m0[1] if not transparent(*b)]
+    unique = len(set(names)) == len(names)
+    w0 = ref.wiring(m0, transparent) if unique else None
     width = max(len(t) for t in ref.m_types(m0))
     mats = {dim: matrix_of(d, dim) for dim in ((2, 3) if width <= 4 else (2,))} \
         if params.get("matrices", True) else {}
@@ -303,12 +334,12 @@ def check_normalize(params):
             bad("step-size", "step %d changes the number of boxes from %d to %d"
                 % (t, len(pm[1]), len(sm[1])))
             return out
-        if ref.wiring(sm, transparent) != w0:
+        if unique and ref.wiring(sm, transparent) != w0:
             bad("step-wiring", "step %d = %s has a different wiring graph than the input" % (t, step))
             return out
         # second, numeric witness: on every snake removal and on the last step (the wiring graph
         # above is the complete oracle and is checked on every step)
-        for dim, m_in in (mats.items() if (len(sm[1]) != len(pm[1]) or t == len(trace) - 1) else ()):
+        for dim, m_in in (mats.items() if (len(sm[1]) != len(pm[1]) or t == len(trace) - 1 or not unique) else ()):
             ms = matrix_of(step, dim)
             if ms.shape != m_in.shape or not np.array_equal(ms, m_in):
                 bad("step-semantics", "step %d = %s denotes a different matrix (dim %d)" % (t, step, dim))
